@@ -115,7 +115,15 @@ def build_low(te, returns, clobber=True):
         info['mon_' + kind] = (haddr, len(code), len(words))
         v = MON_BASE + VEC[kind]
         page[v:v + 4] = emit([T.b(haddr - v), T.NOP], True) if te else emit([A.b(haddr - v)], False)
-    for off in (0x00, 0x04, 0x08, 0x0C, 0x10, 0x14):
+    # Secure Monitor Call: handler behind MVBAR+8, returns to the instruction after the SMC
+    haddr = MON_BASE + 0x80 + HANDLER_SLOT * 2
+    words = (handler_thumb if te else handler_arm)('svc', returns.get('mon_smc', returns['svc']), clobber, mode=0x16)
+    code = emit(words, te)
+    page[haddr:haddr + len(code)] = code
+    info['mon_smc'] = (haddr, len(code), len(words))
+    v = MON_BASE + 0x08
+    page[v:v + 4] = emit([T.b(haddr - v), T.NOP], True) if te else emit([A.b(haddr - v)], False)
+    for off in (0x00, 0x04, 0x0C, 0x10, 0x14):
         v = MON_BASE + off
         page[v:v + 4] = emit([T.SELF, T.NOP], True) if te else emit([A.SELF], False)
     # unused vectors: branch to self (observable as a stuck run)
@@ -131,8 +139,8 @@ class MainGen:
     """seeded generator of well-behaved main programs: r0-r5 scratch, r6 = data pointer, data accesses stay in
     [DBASE, DBASE+0x100), stack stays in its own page, every loop terminates, ends in 'b .'"""
 
-    def __init__(self, rng, thumb, priv, arch7=True, allow=('alu', 'mem', 'stack', 'loop', 'cond', 'svc', 'udf', 'it', 'multi')):
-        self.rng, self.thumb, self.priv, self.arch7 = rng, thumb, priv, arch7
+    def __init__(self, rng, thumb, priv, arch7=True, allow=('alu', 'mem', 'stack', 'loop', 'cond', 'svc', 'udf', 'it', 'multi'), sec=False):
+        self.rng, self.thumb, self.priv, self.arch7, self.sec = rng, thumb, priv, arch7, sec
         self.allow = set(allow)
         self.words = []
 
@@ -217,6 +225,11 @@ class MainGen:
             k = rng.randrange(4)
             body.append([T.mov_imm(self.lo(), rng.getrandbits(8)), T.add_imm8(self.lo(), rng.getrandbits(8)), T.ldst_imm(rng.choice(['str', 'ldr']), self.lo(), DPTR, rng.randrange(16)),
                          T.add_reg(self.lo(), self.lo(), self.lo())][k])
+        # a supervisor / secure-monitor call as the last slot: the saved PSR must carry the retired IT state
+        if 'svc' in self.allow and rng.random() < 0.2:
+            body[-1] = T.svc(rng.getrandbits(8))
+        elif 'smc' in self.allow and self.priv and self.sec and rng.random() < 0.25:
+            body[-1] = T.smc(rng.getrandbits(4))
         return [T.it(first, mask)] + body
 
     def loop(self):
@@ -243,7 +256,7 @@ class MainGen:
 
     def generate(self, n_blocks):
         rng = self.rng
-        kinds = [k for k in ('alu', 'alu', 'alu', 'mem', 'mem', 'stack', 'loop', 'cond', 'multi', 'svc', 'udf', 'it') if k in self.allow]
+        kinds = [k for k in ('alu', 'alu', 'alu', 'mem', 'mem', 'stack', 'loop', 'cond', 'multi', 'svc', 'udf', 'it', 'smc') if k in self.allow and (k != 'smc' or (self.priv and self.sec))]
         if not self.thumb and 'it' in kinds:
             kinds.remove('it')
         out = []
@@ -267,6 +280,8 @@ class MainGen:
                 out.append(T.svc(rng.getrandbits(8)) if self.thumb else A.svc(rng.getrandbits(16)))
             elif k == 'udf':
                 out.append(T.udf(rng.getrandbits(8)) if self.thumb else A.udf(rng.getrandbits(8)))
+            elif k == 'smc':
+                out.append(T.smc(rng.getrandbits(4)) if self.thumb else A.smc(rng.getrandbits(4)))
         out.append(T.SELF if self.thumb else A.SELF)
         return out
 
